@@ -21,6 +21,22 @@ std::vector<std::string> make_keys(int kind, int n, uint64_t kseed) {
     long ctr = 0;
     int guard = 0;
     size_t target = r.below(256);
+    if (kind == 6) {
+        // keys that are proper prefixes of one another, the extension homed at the same slot as its prefix (same probe chain): a
+        // lookup of the short key walks past (or onto) the long one and vice versa
+        while ((int)out.size() < n && guard++ < 200) {
+            std::string base = "p" + std::to_string(r.below(100000));
+            size_t hb = heur_hash(base.c_str()) & 255;
+            add(base);
+            int found = 0;
+            for (long j = 0; j < 200000 && found < 2 && (int)out.size() < n; j++) {
+                std::string ext = base + "x" + std::to_string(j);
+                if ((heur_hash(ext.c_str()) & 255) == hb) { add(ext); found++; }
+            }
+            if ((int)out.size() < n && r.chance(0.5)) add(base.substr(0, base.size() - 1));   // and a prefix of the base itself (any slot)
+        }
+        return out;
+    }
     while ((int)out.size() < n && guard++ < 2000000) {
         std::string k = "k" + std::to_string(r.below(1000000)) + "_" + std::to_string(ctr++);
         size_t h = heur_hash(k.c_str());
@@ -378,11 +394,12 @@ Program gen_map(uint64_t seed, bool thorough) {
     p.set("engine", "simstructs");
     p.set("campaign", "C05");
     p.set("seed", (long)seed);
-    int kinds[] = {0, 0, 1, 2, 2, 3, 3, 4, 5};
-    int kind = kinds[r.below(9)];
+    int kinds[] = {0, 0, 1, 2, 2, 3, 3, 4, 5, 6};
+    int kind = kinds[r.below(10)];
     int nkeys;
     if (kind == 5) nkeys = (int)r.range(200, thorough ? 900 : 420);   // growth
     else nkeys = (int)r.range(2, kind == 0 ? 40 : 10);
+    if (kind == 6) nkeys = (int)r.range(3, 9);
     p.set("keykind", kind == 5 ? 0 : kind);
     p.set("nkeys", nkeys);
     p.set("kseed", (long)r.below(1000000));
